@@ -3,7 +3,7 @@
    a suspension never slices out of range.  One call from fresh objects (every value parser then starts on a fresh or finished object), any
    feeding schedule by C01.  UpperBound.v bounds the fields by the returned offset when the answer is ok; here the bound is the buffer end. *)
 From Sipsp Require Import RunLemmas Safe Resume Ext ExtLeaf ZSlice Harness ExtFLine ExtAdv ExtHdrLine ExtHeaders ExtLists
-  SafeLeaf SafeMore SafeMsg Capacity CapHeaders Layout BlockSpec ContactSpec TrimSpec LowerLists LowerBound UpperBound.
+  SafeLeaf SafeMore SafeMsg Capacity CapHeaders Layout BlockSpec ContactSpec TrimSpec LowerLists LowerBound UpperBound NameAddrNest.
 From Sipsp Require Import MsgBounds ExtMsg SigCoherent.
 From Coq Require Import ZifyN ZifyNat ZifyBool.
 From RecordUpdate Require Import RecordUpdate.
@@ -323,4 +323,446 @@ Theorem message_wb_fed flags B offs bl n nc o s o' e m' : testbit flags bSIPMsgN
   parse_sipmsg flags B o s = Done o' e m' -> UBv (nnat (length B)) (msg_pv m').
 Proof.
   intros Hf Hoffs Hfeed H. rewrite (feeds_same _ _ _ _ _ _ Hf Hfeed) in H. exact (message_wb _ _ _ _ _ _ _ _ _ Hoffs H).
+Qed.
+
+(* ---- the first-line fields, whatever the verdict ---------------------------------------------------------------------------------------------------- *)
+Lemma body_fl flags L o m : match msg_body flags L o m with Done _ _ m' => m_fl m' = m_fl m | _ => True end.
+Proof.
+  unfold msg_body, msg_end. destruct (pf_set o o) as [b0|]; [|exact I]. destruct m as [fl hs body bl raw st offs].
+  cbn -[testbit N.ltb N.add N.sub pf_extend].
+  repeat match goal with
+         | |- context [if ?b then _ else _] => destruct b
+         | |- context [match pf_extend ?a ?b with _ => _ end] => destruct (pf_extend a b)
+         end; try exact I; reflexivity.
+Qed.
+Lemma fail_fl flags o e m : match msg_fail flags o e m with Done _ _ m' => m_fl m' = m_fl m | _ => True end.
+Proof. unfold msg_fail. destruct e; try (destruct m; reflexivity). destruct (testbit flags bSIPMsgNoMoreData); destruct m; reflexivity. Qed.
+Theorem message_fl_wb flags buf offs bl n nc o e m' : offs <= nnat (length buf) ->
+  parse_sipmsg flags buf offs (msg_init bl (repeat hdr0 n) (repeat pfrom0 nc)) = Done o e m' ->
+  fl_inv (nnat (length buf)) (m_fl m').
+Proof.
+  intros Hoffs. unfold parse_sipmsg, msg_init. cbn -[msg_fline]. unfold msg_fline. cbn -[parse_fline msg_headers msg_fail].
+  pose proof (fline_safe buf offs fline0 Hoffs ltac:(unfold fl_inv, pf_end; cbn; repeat split; lia)) as Hfs.
+  destruct (parse_fline buf offs fline0) as [o1 e1 fl| |] eqn:Efl; try discriminate.
+  destruct Hfs as (_ & Hfl & _).
+  assert (Hf : forall oo ee m, m_fl m = fl -> msg_fail flags oo ee m = Done o e m' -> fl_inv (nnat (length buf)) (m_fl m')).
+  { intros oo ee m Hm H. pose proof (fail_fl flags oo ee m) as F. rewrite H in F. rewrite F, Hm. exact Hfl. }
+  destruct e1; try (apply Hf; reflexivity).
+  unfold msg_headers. cbn -[parse_headers msg_body msg_fail].
+  destruct (parse_headers buf o1 _) as [o2 e2 hs| |]; try discriminate.
+  destruct e2; try (apply Hf; reflexivity).
+  intros H. match type of H with msg_body ?f ?L ?oo ?mm = _ => pose proof (body_fl f L oo mm) as B end.
+  rewrite H in B. rewrite B. exact Hfl.
+Qed.
+Theorem message_fl_wb_fed flags B offs bl n nc o s o' e m' : testbit flags bSIPMsgNoMoreData = false -> offs <= nnat (length B) ->
+  feeds flags B offs (msg_init bl (repeat hdr0 n) (repeat pfrom0 nc)) o s ->
+  parse_sipmsg flags B o s = Done o' e m' -> fl_inv (nnat (length B)) (m_fl m').
+Proof.
+  intros Hf Hoffs Hfeed H. rewrite (feeds_same _ _ _ _ _ _ Hf Hfeed) in H. exact (message_fl_wb _ _ _ _ _ _ _ _ _ Hoffs H).
+Qed.
+
+(* ---- the stored headers, whatever the verdict ---------------------------------------------------------------------------------------------------------- *)
+Definition HBh (B : N) (h : hdr) : Prop := pf_end (h_name h) <= B /\ pf_end (h_val h) <= B.
+Lemma HBh_mono B B' h : B <= B' -> HBh B h -> HBh B' h.
+Proof. intros H [A C]. split; lia. Qed.
+Lemma HBh_0 B : HBh B hdr0. Proof. unfold HBh, hdr0, pf_end. cbn. lia. Qed.
+
+(* the value a specific parser hands to the header: inside the buffer, every verdict *)
+Lemma hb_run_HB hs v' pre rest o st : o = nnat (length pre) -> hb_pick st = Some (hs, v') -> UPo o (hx_pv st) -> HBh o (hx_h st) ->
+  match hb_run hs pre rest o st v' with
+  | Ret n e st' => HBh (o + nnat (length rest)) (hx_h st')
+  | _ => True
+  end.
+Proof.
+  intros Ho. unfold hb_pick. destruct (hx_pv st) as [v|] eqn:Epv; [|discriminate]. cbv zeta. intros Hpick [HUB HPR] [Hn Hv].
+  pose proof HUB as (U1 & U2 & U3 & U4 & U5 & U6 & U7 & U8). pose proof HPR as (HPRv & F1 & F2).
+  pose proof HPRv as (P1 & P2 & P3 & P4 & P5 & P6).
+  set (B := o + nnat (length rest)). assert (HoB : o <= B) by (unfold B; lia).
+  set (t := h_type (hx_h st)) in *.
+  assert (Fin : forall {T} (R : list byte -> list byte -> N -> T -> res T) sel put valof hs0 (vv : phvals),
+            (forall pre rest o st v, hb_run hs0 pre rest o st v
+               = hb_finish (R pre rest o (sel v)) (st <| hx_h := (hx_h st) <| h_state := hs0 |> |>) valof (put v)) ->
+            (forall n e b', R pre rest o (sel vv) = Done n e b' -> pf_end (valof b') <= B) ->
+            match hb_run hs0 pre rest o st vv with
+            | Ret n e st' => HBh B (hx_h st')
+            | _ => True
+            end).
+  { intros T R sel put valof hs0 vv Hdef HR. pose proof (hb_lay R sel put valof hs0 Hdef pre rest o st vv) as H.
+    destruct (hb_run hs0 pre rest o st vv) as [|n e st'|]; [exact I| |exact I].
+    destruct H as (b' & ER & _ & En & _ & Eok & Ene). unfold HBh. rewrite En. split; [lia|].
+    destruct (err_eqb e EOk) eqn:Ee.
+    - assert (e = EOk) by (destruct e; try discriminate; reflexivity). subst e. destruct (Eok eq_refl) as [-> _]. exact (HR n EOk b' ER).
+    - assert (e <> EOk) by (intros ->; discriminate). destruct (Ene H) as [-> _]. lia. }
+  destruct (t =? HdrFrom) eqn:E1.
+  { destruct (fb_parsed (pv_from v)) eqn:Ep; [discriminate|]. injection Hpick as <- <-.
+    apply (Fin _ (fun pre rest o b => run (fb_iter HdrFrom) pre rest o 0 b) pv_from (fun v b => v <| pv_from := b |>) fb_v HFrom v); [reflexivity|].
+    intros n e b' ER. destruct F1 as [X|X]; [congruence|]. rewrite X in ER.
+    destruct (fb_fresh_wb HdrFrom pre rest o n e b' Ho ER) as (_&_&_&_&H5&_). exact H5. }
+  destruct (t =? HdrTo) eqn:E2.
+  { destruct (fb_parsed (pv_to v)) eqn:Ep; [discriminate|]. injection Hpick as <- <-.
+    apply (Fin _ (fun pre rest o b => run (fb_iter HdrTo) pre rest o 0 b) pv_to (fun v b => v <| pv_to := b |>) fb_v HTo v); [reflexivity|].
+    intros n e b' ER. destruct F2 as [X|X]; [congruence|]. rewrite X in ER.
+    destruct (fb_fresh_wb HdrTo pre rest o n e b' Ho ER) as (_&_&_&_&H5&_). exact H5. }
+  destruct (t =? HdrCallID) eqn:E3.
+  { destruct (ci_parsed (pv_callid v)) eqn:Ep; [discriminate|]. injection Hpick as <- <-.
+    apply (Fin _ (fun pre rest o b => run ci_iter pre rest o 0 b) pv_callid (fun v b => v <| pv_callid := b |>) ci_callid HCallID v); [reflexivity|].
+    intros n e b' ER. exact (ci_run_wb pre rest o _ n e b' Ho P1 Ep U3 ER). }
+  destruct (t =? HdrCSeq) eqn:E4.
+  { destruct (cs_parsed (pv_cseq v)) eqn:Ep; [discriminate|]. injection Hpick as <- <-.
+    apply (Fin _ (fun pre rest o b => run cs_iter pre rest o 0 b) pv_cseq (fun v b => v <| pv_cseq := b |>) cs_v HCSeq v); [reflexivity|].
+    intros n e b' ER. destruct (cs_run_wb pre rest o _ n e b' Ho U4 ER) as (_ & _ & H3 & _). exact H3. }
+  destruct (t =? HdrCLen) eqn:E5.
+  { destruct (ui_parsed (pv_clen v)) eqn:Ep; [discriminate|]. injection Hpick as <- <-.
+    apply (Fin _ clen_R pv_clen (fun v b => v <| pv_clen := b |>) ui_sval HCLen v); [reflexivity|].
+    intros n e b' ER. exact (clen_run_wb pre rest o _ n e b' Ho P3 Ep U5 ER). }
+  destruct (t =? HdrContact) eqn:E6.
+  { injection Hpick as <- <-.
+    set (c1 := (pv_contacts v) <| ct_hno := ct_hno (pv_contacts v) + 1 |> <| ct_lasthval := pf0 |>).
+    assert (Hc1 : LBct 0 c1) by (subst c1; apply ct_newhdr_LB; exact P5).
+    assert (Hu1 : UBct o c1) by (subst c1; apply UBct_newhdr; exact U7).
+    apply (Fin _ (fun pre rest o b => run ct_iter pre rest o 0 b) pv_contacts (fun v b => v <| pv_contacts := b |>) ct_lasthval HContact); [reflexivity|].
+    intros n e b' ER. replace (pv_contacts (v <| pv_contacts := c1 |>)) with c1 in ER by (destruct v; reflexivity).
+    destruct (ct_run_wb pre rest o c1 n e b' Ho Hu1 Hc1 ER) as (_ & _ & _ & H4). exact H4. }
+  destruct (t =? HdrExpires) eqn:E7.
+  { destruct (ui_parsed (pv_expires v)) eqn:Ep; [discriminate|]. injection Hpick as <- <-.
+    apply (Fin _ (fun pre rest o b => run ui_iter pre rest o 0 b) pv_expires (fun v b => v <| pv_expires := b |>) ui_sval HExpires v); [reflexivity|].
+    intros n e b' ER. exact (ui_run_wb pre rest o _ n e b' Ho P4 Ep U6 ER). }
+  destruct (t =? HdrPAI) eqn:E8; [|discriminate].
+  injection Hpick as <- <-.
+  set (c1 := (pv_pais v) <| pa_hno := pa_hno (pv_pais v) + 1 |> <| pa_lasthval := pf0 |>).
+  assert (Hc1 : LBpa 0 c1) by (subst c1; apply pa_newhdr_LB; exact P6).
+  assert (Hu1 : UBpa o c1) by (subst c1; apply UBpa_newhdr; exact U8).
+  apply (Fin _ (fun pre rest o b => run pa_iter pre rest o 0 b) pv_pais (fun v b => v <| pv_pais := b |>) pa_lasthval HPAI); [reflexivity|].
+  intros n e b' ER. replace (pv_pais (v <| pv_pais := c1 |>)) with c1 in ER by (destruct v; reflexivity).
+  destruct (pa_run_wb pre rest o c1 n e b' Ho Hu1 Hc1 ER) as (_ & _ & H3). exact H3.
+Qed.
+
+Definition HL_res (pre rest : list byte) (i : N) (r : ires hline) : Prop :=
+  match r with
+  | Next k st' => (k <= length rest)%nat -> HBh (i + nnat k) (hx_h st')
+  | Ret o e st' => HBh (i + nnat (length rest)) (hx_h st')
+  | IPanic => True
+  end.
+Lemma colon_HL pre rest i k st : i = nnat (length pre) -> (S k <= length rest)%nat -> UPo i (hx_pv st) ->
+  pf_end (h_name (hx_h st)) <= i + nnat k -> pf_end (h_val (hx_h st)) <= i -> HL_res pre rest i (hl_colon pre rest i k st).
+Proof.
+  intros Hi Hk Hpr Hn Hv. rewrite hl_colon_eq. unfold hl_colon'. destruct (zget _ _ _ _) as [name|]; [|exact I]. cbv zeta.
+  assert (Ho : i + nnat k + 1 = nnat (length (zpre (S k) pre rest))).
+  { unfold zpre. rewrite app_length, rev_length, firstn_length. unfold nnat in *. lia. }
+  set (st1 := st <| hx_h := (hx_h st) <| h_state := HBodyStart |> <| h_type := get_hdr_type name |> |>).
+  assert (F1 : hx_pv st1 = hx_pv st) by (subst st1; destruct st as [h pv]; reflexivity).
+  assert (F2 : h_name (hx_h st1) = h_name (hx_h st)) by (subst st1; destruct st as [h pv]; destruct h; reflexivity).
+  assert (F3 : h_val (hx_h st1) = h_val (hx_h st)) by (subst st1; destruct st as [h pv]; destruct h; reflexivity).
+  clearbody st1.
+  assert (HB1 : HBh (i + nnat k + 1) (hx_h st1)) by (unfold HBh; rewrite F2, F3; lia).
+  destruct (hb_pick st1) as [[hs v']|] eqn:Ep.
+  - pose proof (hb_run_HB hs v' (zpre (S k) pre rest) (zrest (S k) rest) (i + nnat k + 1) st1 Ho Ep
+                  ltac:(rewrite F1; apply (UPo_mono i); [lia|exact Hpr]) HB1) as H.
+    pose proof (hb_run_noNext hs (zpre (S k) pre rest) (zrest (S k) rest) (i + nnat k + 1) st1 v') as Hnn.
+    destruct (hb_run hs _ _ _ st1 v') as [|n e st'|]; [destruct Hnn| |exact I].
+    unfold HL_res. unfold zrest in H. rewrite skipn_length in H.
+    replace (i + nnat (length rest)) with (i + nnat k + 1 + nnat (length rest - S k)) by (unfold nnat; lia). exact H.
+  - unfold HL_res. intros _. replace (i + nnat (S k)) with (i + nnat k + 1) by (unfold nnat; lia). exact HB1.
+Qed.
+Lemma name_ph_HL pre rest i st : i = nnat (length pre) -> UPo i (hx_pv st) -> po (h_name (hx_h st)) <= i -> HBh i (hx_h st) ->
+  HL_res pre rest i (hl_name_ph pre rest i st).
+Proof.
+  intros Hi Hpr Hpo HB. unfold hl_name_ph. cbv zeta. set (k := skipTokenDelim 58 rest).
+  assert (Hkl : (k <= length rest)%nat) by (unfold k, skipTokenDelim; apply NameAddrNest.span_le_len).
+  assert (Hret : forall o e, HL_res pre rest i (Ret o e st)) by (intros o e; cbn; apply (HBh_mono i); [lia|exact HB]).
+  destruct (skipn k rest) as [|c r] eqn:Sk; [apply Hret|]. pose proof (skipn_cons_len _ _ _ _ Sk) as Hk.
+  destruct HB as [Hn Hv].
+  assert (Hext : forall n, pf_extend (h_name (hx_h st)) (i + nnat k) = Some n -> pf_end n = i + nnat k).
+  { intros n E. unfold pf_extend in E. destruct (_ <? _) eqn:El; [discriminate|]. injection E as <-. unfold pf_end. cbn [po pl]. lia. }
+  destruct (is_sp c).
+  - destruct (pf_extend (h_name (hx_h st)) (i + nnat k)) as [n|] eqn:En; [|exact I]. specialize (Hext n eq_refl).
+    match goal with |- HL_res _ _ _ (if _ then Ret _ _ ?S else _) => set (st' := S) end.
+    assert (F2 : h_name (hx_h st') = n) by (subst st'; destruct st as [h pv]; destruct h; reflexivity).
+    assert (F3 : h_val (hx_h st') = h_val (hx_h st)) by (subst st'; destruct st as [h pv]; destruct h; reflexivity).
+    clearbody st'. destruct (pf_empty n); cbn [HL_res]; [|intros _]; unfold HBh; rewrite F2, F3, Hext; unfold nnat in *; lia.
+  - destruct (c =? 58); [|apply Hret].
+    destruct (pf_extend (h_name (hx_h st)) (i + nnat k)) as [n|] eqn:En; [|exact I]. specialize (Hext n eq_refl).
+    match goal with |- HL_res _ _ _ (if _ then Ret _ _ ?S else _) => set (st' := S) end.
+    assert (F1 : hx_pv st' = hx_pv st) by (subst st'; destruct st as [h pv]; reflexivity).
+    assert (F2 : h_name (hx_h st') = n) by (subst st'; destruct st as [h pv]; destruct h; reflexivity).
+    assert (F3 : h_val (hx_h st') = h_val (hx_h st)) by (subst st'; destruct st as [h pv]; destruct h; reflexivity).
+    clearbody st'. destruct (pf_empty n).
+    + cbn [HL_res]. unfold HBh. rewrite F2, F3, Hext. unfold nnat in *. lia.
+    + apply colon_HL; [exact Hi|lia|rewrite F1; exact Hpr|rewrite F2, Hext; lia|rewrite F3; exact Hv].
+Qed.
+Lemma HL_step pre rest i st : i = nnat (length pre) -> UL pre i st -> HBh i (hx_h st) -> HL_res pre rest i (hl_iter pre rest i st).
+Proof.
+  intros Hi Hs HB. unfold UL in Hs.
+  assert (Hsame : forall o e st', h_name (hx_h st') = h_name (hx_h st) -> h_val (hx_h st') = h_val (hx_h st) -> HL_res pre rest i (Ret o e st')).
+  { intros o e st' E1 E2. cbn. unfold HBh. rewrite E1, E2. destruct HB. split; lia. }
+  destruct rest as [|c r].
+  { unfold hl_iter. apply Hsame; reflexivity. }
+  destruct (h_state (hx_h st)) eqn:Est; try contradiction.
+  - rewrite (hit_init pre c r i st Est).
+    destruct (is_cr c); [destruct r as [|d r2]; apply Hsame; destruct st as [h pv]; destruct h; reflexivity|].
+    destruct (is_lf c); [apply Hsame; destruct st as [h pv]; destruct h; reflexivity|].
+    destruct (pf_set i i) as [n|] eqn:En; [|exact I]. cbv beta iota.
+    assert (Hn : n = mkpf i 0) by (unfold pf_set in En; rewrite N.ltb_irrefl, N.sub_diag in En; injection En as <-; reflexivity). subst n.
+    match goal with |- HL_res _ _ _ (hl_name_ph _ _ _ ?S) => set (st' := S) end.
+    assert (F1 : hx_pv st' = hx_pv st) by (subst st'; destruct st as [h pv]; reflexivity).
+    assert (F2 : h_name (hx_h st') = mkpf i 0) by (subst st'; destruct st as [h pv]; destruct h; reflexivity).
+    assert (F3 : h_val (hx_h st') = h_val (hx_h st)) by (subst st'; destruct st as [h pv]; destruct h; reflexivity).
+    clearbody st'. apply name_ph_HL; [exact Hi|rewrite F1; exact Hs|rewrite F2; cbn; lia|].
+    unfold HBh. rewrite F2, F3. destruct HB. unfold pf_end in *. cbn [po pl]. split; lia.
+  - rewrite (hit_name pre _ i st Est). apply name_ph_HL; [exact Hi|exact Hs| |exact HB].
+    destruct HB as [A _]. unfold pf_end in A. lia.
+  - rewrite (hit_nameend pre _ i st Est). unfold hl_nameend. cbv zeta.
+    destruct (skipn _ (c :: r)) as [|d r'] eqn:Sk; [apply Hsame; reflexivity|]. destruct (d =? 58); [|apply Hsame; reflexivity].
+    destruct HB as [A B1]. apply colon_HL; [exact Hi|pose proof (skipn_cons_len _ _ _ _ Sk); lia|exact Hs|lia|exact B1].
+  - rewrite (hit_bstart pre _ i st Est). unfold hl_bstart. pose proof (skipLWS_bounds false (c :: r)) as Hb.
+    destruct (skipLWS false (c :: r)) as [k|k crl|k]; [| |apply Hsame; reflexivity].
+    + destruct (pf_set _ _) as [v|] eqn:Ev; [|exact I].
+      assert (Hv : v = mkpf (i + nnat k) 0) by (unfold pf_set in Ev; rewrite N.ltb_irrefl, N.sub_diag in Ev; injection Ev as <-; reflexivity). subst v.
+      cbn [HL_res]. intros _. destruct HB as [A _]. destruct st as [h pv]. destruct h. unfold HBh, pf_end in *. cbn in *. unfold nnat. lia.
+    + apply Hsame; destruct st as [h pv]; destruct h; reflexivity.
+  - rewrite (hit_val pre _ i st Est). unfold hl_val. cbv zeta.
+    assert (Hkl : (skipToken (c :: r) <= length (c :: r))%nat) by (unfold skipToken; apply NameAddrNest.span_le_len).
+    destruct (skipn (skipToken (c :: r)) (c :: r)) as [|d r'] eqn:Sk; [apply Hsame; reflexivity|].
+    destruct (pf_extend _ _) as [v1|] eqn:Ev; [|exact I].
+    assert (Hv1 : pf_end v1 = i + nnat (skipToken (c :: r))).
+    { unfold pf_extend in Ev. destruct (_ <? _) eqn:El; [discriminate|]. injection Ev as <-. unfold pf_end. cbn [po pl]. lia. }
+    unfold hl_valend. pose proof (skipLWS_bounds false (d :: r')) as Hb.
+    assert (Hlen : length (d :: r') = (length (c :: r) - skipToken (c :: r))%nat) by (rewrite <- Sk; apply skipn_length).
+    destruct HB as [A _].
+    destruct (skipLWS false (d :: r')) as [k2|k2 crl|k2]; cbn [HL_res]; [intros _| |];
+      destruct st as [h pv]; destruct h; unfold HBh in *; cbn in *; rewrite Hv1; unfold nnat in *; split; lia.
+  - rewrite (hit_valend pre _ i st Est). unfold hl_valend.
+    destruct (skipLWS false (c :: r)) as [k2|k2 crl|k2]; cbn [HL_res]; [intros _| |];
+      destruct HB as [A B1]; destruct st as [h pv]; destruct h; unfold HBh in *; cbn in *; unfold nnat in *; split; lia.
+  - rewrite (hit_fin pre c r i st Est). apply Hsame; reflexivity.
+Qed.
+
+(* when the answer is ok the header's fields end at or before the returned offset *)
+Lemma hb_run_HB_ok hs v' pre rest o st : o = nnat (length pre) -> hb_pick st = Some (hs, v') -> UPo o (hx_pv st) -> HBh o (hx_h st) ->
+  match hb_run hs pre rest o st v' with
+  | Ret n EOk st' => HBh n (hx_h st')
+  | _ => True
+  end.
+Proof.
+  intros Ho Hpick HU [Hn Hv]. pose proof (hb_run_UB hs v' pre rest o st Ho Hpick HU) as UBres.
+  unfold hb_pick in Hpick. destruct (hx_pv st) as [v|] eqn:Epv; [|discriminate]. cbv zeta in Hpick.
+  set (t := h_type (hx_h st)) in *.
+  assert (Fin : forall {T} (R : list byte -> list byte -> N -> T -> res T) sel put valof hs0 (vv : phvals),
+            (forall pre rest o st v, hb_run hs0 pre rest o st v
+               = hb_finish (R pre rest o (sel v)) (st <| hx_h := (hx_h st) <| h_state := hs0 |> |>) valof (put v)) ->
+            (forall m b', UBv m (put vv b') -> pf_end (valof b') <= m) ->
+            match hb_run hs0 pre rest o st vv with
+            | Ret n EOk st' => o <= n /\ UPo n (hx_pv st') -> HBh n (hx_h st')
+            | _ => True
+            end).
+  { intros T R sel put valof hs0 vv Hdef HR. pose proof (hb_lay R sel put valof hs0 Hdef pre rest o st vv) as H.
+    destruct (hb_run hs0 pre rest o st vv) as [|n e st'|]; [exact I| |exact I]. destruct e; try exact I.
+    destruct H as (b' & ER & Epv' & En & _ & Eok & _). intros [Hon HU']. rewrite Epv' in HU'. destruct HU' as [HU' _].
+    unfold HBh. rewrite En. destruct (Eok eq_refl) as [-> _]. split; [lia|exact (HR n b' HU')]. }
+  assert (Use : forall vv hs0, hs = hs0 -> v' = vv ->
+            match hb_run hs0 pre rest o st vv with Ret n EOk st' => o <= n /\ UPo n (hx_pv st') -> HBh n (hx_h st') | _ => True end ->
+            match hb_run hs pre rest o st v' with Ret n EOk st' => HBh n (hx_h st') | _ => True end).
+  { intros vv hs0 -> -> H. destruct (hb_run hs0 pre rest o st vv) as [|n e st'|]; auto. destruct e; auto. }
+  destruct (t =? HdrFrom) eqn:E1.
+  { destruct (fb_parsed (pv_from v)); [discriminate|]. injection Hpick as <- <-. apply (Use v HFrom eq_refl eq_refl).
+    apply (Fin _ (fun pre rest o b => run (fb_iter HdrFrom) pre rest o 0 b) pv_from (fun v b => v <| pv_from := b |>) fb_v HFrom v); [reflexivity|].
+    intros m b' H. destruct v; cbn in H. destruct H as ((_&_&_&_&H5&_) & _). exact H5. }
+  destruct (t =? HdrTo) eqn:E2.
+  { destruct (fb_parsed (pv_to v)); [discriminate|]. injection Hpick as <- <-. apply (Use v HTo eq_refl eq_refl).
+    apply (Fin _ (fun pre rest o b => run (fb_iter HdrTo) pre rest o 0 b) pv_to (fun v b => v <| pv_to := b |>) fb_v HTo v); [reflexivity|].
+    intros m b' H. destruct v; cbn in H. destruct H as (_ & (_&_&_&_&H5&_) & _). exact H5. }
+  destruct (t =? HdrCallID) eqn:E3.
+  { destruct (ci_parsed (pv_callid v)); [discriminate|]. injection Hpick as <- <-. apply (Use v HCallID eq_refl eq_refl).
+    apply (Fin _ (fun pre rest o b => run ci_iter pre rest o 0 b) pv_callid (fun v b => v <| pv_callid := b |>) ci_callid HCallID v); [reflexivity|].
+    intros m b' H. destruct v; cbn in H. destruct H as (_ & _ & H3 & _). exact H3. }
+  destruct (t =? HdrCSeq) eqn:E4.
+  { destruct (cs_parsed (pv_cseq v)); [discriminate|]. injection Hpick as <- <-. apply (Use v HCSeq eq_refl eq_refl).
+    apply (Fin _ (fun pre rest o b => run cs_iter pre rest o 0 b) pv_cseq (fun v b => v <| pv_cseq := b |>) cs_v HCSeq v); [reflexivity|].
+    intros m b' H. destruct v; cbn in H. destruct H as (_ & _ & _ & (_ & _ & H3 & _) & _). exact H3. }
+  destruct (t =? HdrCLen) eqn:E5.
+  { destruct (ui_parsed (pv_clen v)); [discriminate|]. injection Hpick as <- <-. apply (Use v HCLen eq_refl eq_refl).
+    apply (Fin _ clen_R pv_clen (fun v b => v <| pv_clen := b |>) ui_sval HCLen v); [reflexivity|].
+    intros m b' H. destruct v; cbn in H. destruct H as (_ & _ & _ & _ & H5 & _). exact H5. }
+  destruct (t =? HdrContact) eqn:E6.
+  { injection Hpick as <- <-. eapply (Use _ HContact eq_refl eq_refl).
+    apply (Fin _ (fun pre rest o b => run ct_iter pre rest o 0 b) pv_contacts (fun v b => v <| pv_contacts := b |>) ct_lasthval HContact); [reflexivity|].
+    intros m b' H. destruct v; cbn in H. destruct H as (_ & _ & _ & _ & _ & _ & (_ & _ & _ & H4) & _). exact H4. }
+  destruct (t =? HdrExpires) eqn:E7.
+  { destruct (ui_parsed (pv_expires v)); [discriminate|]. injection Hpick as <- <-. apply (Use v HExpires eq_refl eq_refl).
+    apply (Fin _ (fun pre rest o b => run ui_iter pre rest o 0 b) pv_expires (fun v b => v <| pv_expires := b |>) ui_sval HExpires v); [reflexivity|].
+    intros m b' H. destruct v; cbn in H. destruct H as (_ & _ & _ & _ & _ & H6 & _). exact H6. }
+  destruct (t =? HdrPAI) eqn:E8; [|discriminate].
+  injection Hpick as <- <-. eapply (Use _ HPAI eq_refl eq_refl).
+  apply (Fin _ (fun pre rest o b => run pa_iter pre rest o 0 b) pv_pais (fun v b => v <| pv_pais := b |>) pa_lasthval HPAI); [reflexivity|].
+  intros m b' H. destruct v; cbn in H. destruct H as (_ & _ & _ & _ & _ & _ & _ & (_ & _ & H3)). exact H3.
+Qed.
+Definition HLok (r : ires hline) : Prop := match r with Ret o EOk st' => HBh o (hx_h st') | _ => True end.
+Lemma colon_HLok pre rest i k st : i = nnat (length pre) -> (S k <= length rest)%nat -> UPo i (hx_pv st) ->
+  pf_end (h_name (hx_h st)) <= i + nnat k -> pf_end (h_val (hx_h st)) <= i -> HLok (hl_colon pre rest i k st).
+Proof.
+  intros Hi Hk Hpr Hn Hv. rewrite hl_colon_eq. unfold hl_colon'. destruct (zget _ _ _ _) as [name|]; [|exact I]. cbv zeta.
+  assert (Ho : i + nnat k + 1 = nnat (length (zpre (S k) pre rest))).
+  { unfold zpre. rewrite app_length, rev_length, firstn_length. unfold nnat in *. lia. }
+  set (st1 := st <| hx_h := (hx_h st) <| h_state := HBodyStart |> <| h_type := get_hdr_type name |> |>).
+  assert (F1 : hx_pv st1 = hx_pv st) by (subst st1; destruct st as [h pv]; reflexivity).
+  assert (F2 : h_name (hx_h st1) = h_name (hx_h st)) by (subst st1; destruct st as [h pv]; destruct h; reflexivity).
+  assert (F3 : h_val (hx_h st1) = h_val (hx_h st)) by (subst st1; destruct st as [h pv]; destruct h; reflexivity).
+  clearbody st1.
+  assert (HB1 : HBh (i + nnat k + 1) (hx_h st1)) by (unfold HBh; rewrite F2, F3; lia).
+  destruct (hb_pick st1) as [[hs v']|] eqn:Ep; [|exact I].
+  exact (hb_run_HB_ok hs v' (zpre (S k) pre rest) (zrest (S k) rest) (i + nnat k + 1) st1 Ho Ep
+           ltac:(rewrite F1; apply (UPo_mono i); [lia|exact Hpr]) HB1).
+Qed.
+Lemma name_ph_HLok pre rest i st : i = nnat (length pre) -> UPo i (hx_pv st) -> HBh i (hx_h st) -> HLok (hl_name_ph pre rest i st).
+Proof.
+  intros Hi Hpr [Hn Hv]. unfold hl_name_ph. cbv zeta. set (k := skipTokenDelim 58 rest).
+  destruct (skipn k rest) as [|c r] eqn:Sk; [exact I|]. pose proof (skipn_cons_len _ _ _ _ Sk) as Hk.
+  destruct (is_sp c).
+  - destruct (pf_extend _ _) as [n|]; [|exact I]. destruct (pf_empty n); exact I.
+  - destruct (c =? 58); [|exact I].
+    destruct (pf_extend (h_name (hx_h st)) (i + nnat k)) as [n|] eqn:En; [|exact I].
+    assert (Hext : pf_end n = i + nnat k).
+    { unfold pf_extend in En. destruct (_ <? _) eqn:El; [discriminate|]. injection En as <-. unfold pf_end. cbn [po pl]. lia. }
+    match goal with |- HLok (if _ then Ret _ _ ?S else _) => set (st' := S) end.
+    assert (F1 : hx_pv st' = hx_pv st) by (subst st'; destruct st as [h pv]; reflexivity).
+    assert (F2 : h_name (hx_h st') = n) by (subst st'; destruct st as [h pv]; destruct h; reflexivity).
+    assert (F3 : h_val (hx_h st') = h_val (hx_h st)) by (subst st'; destruct st as [h pv]; destruct h; reflexivity).
+    clearbody st'. destruct (pf_empty n); [exact I|].
+    apply colon_HLok; [exact Hi|lia|rewrite F1; exact Hpr|rewrite F2, Hext; lia|rewrite F3; exact Hv].
+Qed.
+Lemma HLok_step pre rest i st : i = nnat (length pre) -> UL pre i st -> HBh i (hx_h st) -> HLok (hl_iter pre rest i st).
+Proof.
+  intros Hi Hs HB. unfold UL in Hs. destruct rest as [|c r]; [exact I|].
+  destruct (h_state (hx_h st)) eqn:Est; try contradiction.
+  - rewrite (hit_init pre c r i st Est).
+    destruct (is_cr c); [destruct r as [|d r2]; exact I|]. destruct (is_lf c); [exact I|].
+    destruct (pf_set i i) as [n|] eqn:En; [|exact I]. cbv beta iota.
+    assert (Hn : n = mkpf i 0) by (unfold pf_set in En; rewrite N.ltb_irrefl, N.sub_diag in En; injection En as <-; reflexivity). subst n.
+    match goal with |- HLok (hl_name_ph _ _ _ ?S) => set (st' := S) end.
+    assert (F1 : hx_pv st' = hx_pv st) by (subst st'; destruct st as [h pv]; reflexivity).
+    assert (F2 : h_name (hx_h st') = mkpf i 0) by (subst st'; destruct st as [h pv]; destruct h; reflexivity).
+    assert (F3 : h_val (hx_h st') = h_val (hx_h st)) by (subst st'; destruct st as [h pv]; destruct h; reflexivity).
+    clearbody st'. apply name_ph_HLok; [exact Hi|rewrite F1; exact Hs|].
+    unfold HBh. rewrite F2, F3. destruct HB. unfold pf_end in *. cbn [po pl]. split; lia.
+  - rewrite (hit_name pre _ i st Est). apply name_ph_HLok; assumption.
+  - rewrite (hit_nameend pre _ i st Est). unfold hl_nameend. cbv zeta.
+    destruct (skipn _ (c :: r)) as [|d r'] eqn:Sk; [exact I|]. destruct (d =? 58); [|exact I].
+    destruct HB as [A B1]. apply colon_HLok; [exact Hi|pose proof (skipn_cons_len _ _ _ _ Sk); lia|exact Hs|lia|exact B1].
+  - rewrite (hit_bstart pre _ i st Est). unfold hl_bstart.
+    destruct (skipLWS false (c :: r)) as [k|k crl|k]; [destruct (pf_set _ _); exact I| |exact I].
+    cbn [HLok]. destruct HB as [A B1]. destruct st as [h pv]; destruct h; unfold HBh in *; cbn in *; unfold nnat; split; lia.
+  - rewrite (hit_val pre _ i st Est). unfold hl_val. cbv zeta.
+    destruct (skipn (skipToken (c :: r)) (c :: r)) as [|d r'] eqn:Sk; [exact I|].
+    destruct (pf_extend _ _) as [v1|] eqn:Ev; [|exact I].
+    assert (Hv1 : pf_end v1 = i + nnat (skipToken (c :: r))).
+    { unfold pf_extend in Ev. destruct (_ <? _) eqn:El; [discriminate|]. injection Ev as <-. unfold pf_end. cbn [po pl]. lia. }
+    unfold hl_valend. destruct HB as [A _].
+    destruct (skipLWS false (d :: r')) as [k2|k2 crl|k2]; cbn [HLok]; try exact I.
+    destruct st as [h pv]; destruct h; unfold HBh in *; cbn in *; rewrite Hv1; unfold nnat in *; split; lia.
+  - rewrite (hit_valend pre _ i st Est). unfold hl_valend.
+    destruct (skipLWS false (c :: r)) as [k2|k2 crl|k2]; cbn [HLok]; try exact I.
+    destruct HB as [A B1]; destruct st as [h pv]; destruct h; unfold HBh in *; cbn in *; unfold nnat in *; split; lia.
+  - rewrite (hit_fin pre c r i st Est). exact I.
+Qed.
+
+(* the list of stored headers *)
+Definition HLB (B : N) (l : hdrlst) : Prop := Forall (HBh B) (hl_hdrs l) /\ HBh B (hl_tmp l) /\ Forall (HBh B) (hl_first l).
+Lemma HLB_mono B B' l : B <= B' -> HLB B l -> HLB B' l.
+Proof. intros H (A & C & D). split; [eapply Forall_impl; [|exact A]; intros a; apply HBh_mono; exact H|]. split; [apply (HBh_mono B); assumption|eapply Forall_impl; [|exact D]; intros a; apply HBh_mono; exact H]. Qed.
+Lemma HLB_store B l h : HLB B l -> HBh B h -> HLB B (hl_store l h).
+Proof.
+  intros (A & C & D) Hh. destruct (hl_store_proj l h) as (_ & _ & S3 & S4 & S5). unfold HLB. rewrite S3, S4, S5.
+  split; [destruct (hl_is_tmp l); [exact A|apply Forall_set_nth; assumption]|]. split; [destruct (hl_is_tmp l); assumption|exact D].
+Qed.
+Lemma HLB_add B l h : HLB B l -> HBh B h -> HLB B (hl_add l h).
+Proof.
+  intros (A & C & D) Hh. destruct (hl_add_proj l h) as (_ & X2 & X3 & _ & X5). unfold HLB. rewrite X2, X3, X5.
+  split; [destruct (hl_is_tmp l); [exact A|apply Forall_set_nth; assumption]|]. split; [destruct (hl_is_tmp l); [apply HBh_0|exact C]|].
+  destruct (_ && _); [apply Forall_set_nth; assumption|exact D].
+Qed.
+
+Lemma BH_step pre rest i st : i = nnat (length pre) -> BU pre i st -> HLB i (hs_l st) ->
+  match hs_iter pre rest i st with
+  | Next k st' => (0 < k)%nat -> (k <= length rest)%nat -> HLB (i + nnat k) (hs_l st')
+  | Ret o e st' => HLB (i + nnat (length rest)) (hs_l st')
+  | IPanic => True
+  end.
+Proof.
+  intros Hi (Hp & [Hwf Hslot]) HL. destruct rest as [|c r]; [unfold hs_iter; cbn; apply (HLB_mono i); [lia|exact HL]|].
+  rewrite hs_iter_def. unfold hs_sel. rewrite Hslot.
+  pose proof (run_invQ hl_iter (fun p j s => i <= j /\ UL p j s /\ HBh j (hx_h s))
+                (fun p r0 j o e s => i <= j /\ HBh (j + nnat (length r0)) (hx_h s) /\ (e = EOk -> HBh o (hx_h s)) /\ (e = EOk \/ e = EEmpty -> j <= o))) as R.
+  specialize (R ltac:(intros p r0 j s Hj (P0 & P1 & P2); pose proof (UL_step p r0 j s Hj P1) as X; pose proof (HL_step p r0 j s Hj P1 P2) as Y;
+                      pose proof (HLok_step p r0 j s Hj P1 P2) as Z;
+                      destruct (hl_iter p r0 j s) as [k s'|o e s'|]; auto;
+                      [intros Hk0 Hk; split; [unfold nnat; lia|]; split; [exact (X Hk0 Hk)|exact (Y Hk)]
+                      |split; [exact P0|]; split; [exact Y|]; split; [intros ->; exact Z|intros He; exact (proj1 (X He))]])
+                (c :: r) pre i (mkhline hdr0 (hs_pv st)) Hi (conj (N.le_refl i) (conj Hp (HBh_0 i)))).
+  destruct (run hl_iter pre (c :: r) i 0 (mkhline hdr0 (hs_pv st))) as [n e x| |] eqn:Er; [|exact I|exact I].
+  destruct R as (p' & r' & i' & Hi' & Hw & (Hii & HQ & Hok & Hge)).
+  apply (f_equal (@length _)) in Hw. rewrite !app_length, !rev_length in Hw.
+  replace (i' + nnat (length r')) with (i + nnat (length (c :: r))) in HQ by (unfold nnat in *; lia).
+  set (B := i + nnat (length (c :: r))) in *. assert (HiB : i <= B) by (unfold B; lia).
+  pose proof (HLB_store B (hs_l st) (hx_h x) (HLB_mono i B _ HiB HL) HQ) as Hst.
+  destruct e; try (unfold hs_post; cbv zeta; exact Hst).
+  - rewrite hs_post_ok. intros Hk0 Hk. cbn [hs_l].
+    assert (Hn : i <= n) by (specialize (Hge (or_introl eq_refl)); lia).
+    replace (i + nnat (N.to_nat (n - i))) with n by (unfold nnat in *; lia).
+    apply HLB_add; [apply (HLB_mono i); [exact Hn|exact HL]|exact (Hok eq_refl)].
+  - unfold hs_post. cbv zeta. destruct (0 <? _); exact Hst.
+Qed.
+Theorem headers_hwb buf offs ncap nc o e st' : offs <= nnat (length buf) ->
+  parse_headers buf offs (mkhdrs_st (hdrlst_init (repeat hdr0 ncap)) (Some (phvals_init (repeat pfrom0 nc)))) = Done o e st' ->
+  HLB (nnat (length buf)) (hs_l st').
+Proof.
+  intros Ho H. unfold parse_headers, parse in H. unfold zinit in H.
+  assert (Hi : offs = nnat (length (rev (firstn (N.to_nat offs) buf)))) by (rewrite rev_length, firstn_length; unfold nnat in *; lia).
+  pose proof (run_invQ hs_iter (fun p j s => offs <= j /\ BU p j s /\ HLB j (hs_l s)) (fun p r j _ _ s => HLB (j + nnat (length r)) (hs_l s))) as R.
+  specialize (R ltac:(intros p r0 j s Hj (P0 & P1 & P2); pose proof (BU_step p r0 j s Hj P1) as X; pose proof (BH_step p r0 j s Hj P1 P2) as Y;
+                      destruct (hs_iter p r0 j s) as [k s'|o0 e0 s'|]; auto;
+                      intros Hk0 Hk; split; [unfold nnat; lia|]; split; [exact (X Hk0 Hk)|exact (Y Hk0 Hk)])
+                (skipn (N.to_nat offs) buf) (rev (firstn (N.to_nat offs) buf)) offs (mkhdrs_st (hdrlst_init (repeat hdr0 ncap)) (Some (phvals_init (repeat pfrom0 nc)))) Hi).
+  assert (HL0 : HLB offs (hdrlst_init (repeat hdr0 ncap))).
+  { unfold HLB, hdrlst_init. cbn [hl_hdrs hl_tmp hl_first].
+    split; [apply Forall_forall; intros x Hx; apply repeat_spec in Hx; subst x; apply HBh_0|]. split; [apply HBh_0|].
+    apply Forall_forall; intros x Hx; apply repeat_spec in Hx; subst x; apply HBh_0. }
+  specialize (R ltac:(split; [lia|]; split; [split; [split; [apply UBv_init|apply PR2_init]|];
+                      unfold LI, hdrlst_init; cbn; split; [split; [intros j _; apply nth_repeat|reflexivity]|];
+                      unfold hl_slot, hl_is_tmp, hl_cap; cbn; destruct (_ <=? 0); [reflexivity|apply nth_repeat]|exact HL0])).
+  rewrite H in R. destruct R as (p' & r' & i' & Hi' & Hw & HQ). rewrite rev_involutive, firstn_skipn in Hw.
+  apply (f_equal (@length _)) in Hw. rewrite app_length, rev_length in Hw.
+  replace (nnat (length buf)) with (i' + nnat (length r')) by (unfold nnat in *; lia). exact HQ.
+Qed.
+(* whatever one call on fresh objects answers: every stored header's name and value end inside the buffer *)
+Theorem message_hwb flags buf offs bl n nc o e m' : offs <= nnat (length buf) ->
+  parse_sipmsg flags buf offs (msg_init bl (repeat hdr0 n) (repeat pfrom0 nc)) = Done o e m' ->
+  HLB (nnat (length buf)) (hs_l (m_hs m')).
+Proof.
+  intros Hoffs. unfold parse_sipmsg, msg_init. cbn -[msg_fline]. unfold msg_fline. cbn -[parse_fline msg_headers msg_fail].
+  pose proof (fline_safe buf offs fline0 Hoffs) as Hfs.
+  destruct (parse_fline buf offs fline0) as [o1 e1 fl| |] eqn:Efl; try discriminate.
+  assert (HL0 : forall B, HLB B (hdrlst_init (repeat hdr0 n))).
+  { intros B. unfold HLB, hdrlst_init. cbn [hl_hdrs hl_tmp hl_first].
+    split; [apply Forall_forall; intros x Hx; apply repeat_spec in Hx; subst x; apply HBh_0|]. split; [apply HBh_0|].
+    apply Forall_forall; intros x Hx; apply repeat_spec in Hx; subst x; apply HBh_0. }
+  assert (Hf : forall oo ee m, hs_l (m_hs m) = hdrlst_init (repeat hdr0 n) -> msg_fail flags oo ee m = Done o e m' -> HLB (nnat (length buf)) (hs_l (m_hs m'))).
+  { intros oo ee m Hm H. pose proof (fail_hs flags oo ee m) as F. rewrite H in F. rewrite F, Hm. apply HL0. }
+  destruct e1; try (apply Hf; reflexivity).
+  unfold msg_headers. cbn -[parse_headers msg_body msg_fail].
+  assert (Ho1 : o1 <= nnat (length buf)).
+  { assert (X : fl_inv offs fline0) by (unfold fl_inv, pf_end; cbn; repeat split; lia). specialize (Hfs X). apply Hfs. }
+  pose proof (headers_hwb buf o1 n nc) as Hc.
+  destruct (parse_headers buf o1 _) as [o2 e2 hs| |]; try discriminate.
+  specialize (Hc o2 e2 hs Ho1 eq_refl).
+  assert (Hf2 : forall oo ee m, m_hs m = hs -> msg_fail flags oo ee m = Done o e m' -> HLB (nnat (length buf)) (hs_l (m_hs m'))).
+  { intros oo ee m Hm H. pose proof (fail_hs flags oo ee m) as F. rewrite H in F. rewrite F, Hm. exact Hc. }
+  destruct e2; try (apply Hf2; reflexivity).
+  intros H. match type of H with msg_body ?f ?L ?oo ?mm = _ => pose proof (body_hs f L oo mm) as B end.
+  rewrite H in B. rewrite B. exact Hc.
+Qed.
+Theorem message_hwb_fed flags B offs bl n nc o s o' e m' : testbit flags bSIPMsgNoMoreData = false -> offs <= nnat (length B) ->
+  feeds flags B offs (msg_init bl (repeat hdr0 n) (repeat pfrom0 nc)) o s ->
+  parse_sipmsg flags B o s = Done o' e m' -> HLB (nnat (length B)) (hs_l (m_hs m')).
+Proof.
+  intros Hf Hoffs Hfeed H. rewrite (feeds_same _ _ _ _ _ _ Hf Hfeed) in H. exact (message_hwb _ _ _ _ _ _ _ _ _ Hoffs H).
 Qed.
